@@ -490,7 +490,12 @@ package server
 //@   modifies protocol.LockCommand.*, protocol.LockDBState.KeyCount, protocol.LockDBState.SlowKeyCount, LockDB.freeLockManagerHead, LockDB.freeLockManagerTail, LockDB.managerGlockIndex, LockData.commandDatas, LockManager.fastKeyValue, LockManager.lockKey, LockManager.refCount, Lock.data, PriorityMutex.*, LockDBExecutor.*, LockDBExecutorTask.*, E_Pserver_LockDBExecutor, E_Pserver_LockDBExecutorTask, E_Pserver_LockManager, E_server_FastKeyValue, MH_mapLL16JbyteJPserver_LockManager, MV_mapLL16JbyteJPserver_LockManager, BinaryServerProtocol.*, TextServerProtocol.*, MemWaiterServerProtocol.*, ProxyServerProtocol.*, TransparencyBinaryServerProtocol.*, TransparencyTextServerProtocol.*, Stream.*, StreamWriterBuffer.*, StreamReaderBuffer.*, protocol.TextParser.*
 // C15/C11: undoing a POP puts the popped elements back where they were taken from, the head of the array: they are in
 // the list before the scan of the surviving elements starts (a refused request leaves the value unchanged)
+// C13/C11: the undo datum a value operation saves has the type its undo reads (INCR the increment, APPEND position and
+// length, SHIFT and PUSH the bytes, POP the elements) - this is what ProcessLockData's SaveRecoverData sites establish
+// (assumed here as the record's invariant) - or is absent: a PIPELINE saves none, and the undo must not read one then
+//@ spec func recoverTyped(t, v) = implies(t == protocol.LOCK_DATA_COMMAND_TYPE_INCR, istype(v, int64)) && implies(t == protocol.LOCK_DATA_COMMAND_TYPE_APPEND, istype(v, uint64)) && implies(t == protocol.LOCK_DATA_COMMAND_TYPE_SHIFT || t == protocol.LOCK_DATA_COMMAND_TYPE_PUSH, istype(v, []byte)) && implies(t == protocol.LOCK_DATA_COMMAND_TYPE_POP, istype(v, [][]byte))
 //@ func (*LockManager).ProcessRecoverLockData
+//@   requires implies(lock != nil && lock.data != nil && lock.data.currentData != nil && !isnil(lock.data.recoverValue), recoverTyped(lock.data.currentData.commandType, lock.data.recoverValue))
 //@   at call NewLockManagerData assert C15.recover.shift-header,C11.recover.shift-header: implies(arg1 == protocol.LOCK_DATA_COMMAND_TYPE_SHIFT && len(currentData.data) >= 8 && voffM(currentData) <= len(currentData.data) && len(currentData.data) < 0x40000000 && len(astype(recoverValue, []byte)) < 0x40000000, forall(k, 6, voffM(currentData), arg0[k] == currentData.data[k]))
 //@   loop#4 entry C15.recover.pop-head,C11.recover.pop-head: implies(!isnil(recoverValue), len(values) == len(astype(recoverValue, [][]byte)))
 //@   modifies LockData.*, LockManagerData.isAof, LockManager.currentData, Lock.data
